@@ -9,7 +9,7 @@ references after it.  The readers are proved to produce exactly the objects / po
 format's structure defines in terms of OBJ / END / NREF of their children (modular induction; termination is C11's).
 """
 import z3
-from pyvc.engine import HList, handle_seq_of_list, Loop, SObj, Opaque, HFile, HRefTable, STupleSeq, PyLong, Contract
+from pyvc.engine import HList, handle_seq_of_list, pair_seq_of_dict, Loop, SObj, Opaque, HFile, HRefTable, STupleSeq, PyLong, Contract
 from pyvc.types import Maker, Int, Bool, Const
 from pyvc.sym import And, Or, Not, Implies, If, Len, SInt, SBool, SEnum, ZSeq, _ie, _be, is_sym
 from pyvc import sym
@@ -335,5 +335,65 @@ container_contract("t_set", "<", set)
 # '[': the list is registered in the reference table *before* its children are read and then extended in place, so
 # the slot holds the finished object by aliasing (HHandleList: a list of handles of symbolic length)
 container_contract("t_list", "[", list)
+
+# ------------------------------------------------------------------------------------------------
+# '{': key/value pairs up to the first NULL ('0') key (or NULL value); None is an ordinary key or value
+ISNONE = z3.Function("ISNONE", I, I)     # 1 iff the abstract object is None
+ISNULL = z3.Function("ISNULL", I, I)     # 1 iff the abstract object is the NULL marker (TYPE_NULL), else 0
+
+
+@spec
+def dpairs(p: int, r: int, b: int) -> IntSeq:
+    """handles key, value, key, value ... of the dict body at position p (definitional unfolding only: the format,
+    not this function, bounds the recursion)"""
+    if ISNULL(OBJ(p, r, b)) == 1:
+        return []
+    if ISNULL(OBJ(END(p, r), NREF(p, r), b)) == 1:
+        return []
+    return [OBJ(p, r, b), OBJ(END(p, r), NREF(p, r), b)] + dpairs(END(END(p, r), NREF(p, r)), NREF(END(p, r), NREF(p, r)), b)
+
+
+@spec
+def dend(p: int, r: int, b: int, which: int) -> int:
+    """position (which == 0) / reference count (which == 1) after the dict body at position p"""
+    if ISNULL(OBJ(p, r, b)) == 1:
+        return END(p, r) if which == 0 else NREF(p, r)
+    if ISNULL(OBJ(END(p, r), NREF(p, r), b)) == 1:
+        return END(END(p, r), NREF(p, r)) if which == 0 else NREF(END(p, r), NREF(p, r))
+    return dend(END(END(p, r), NREF(p, r)), NREF(END(p, r), NREF(p, r)), b, which)
+
+
+def _null_identity(eng, handle, other):
+    import xdis.unmarshal as U
+    if other is U.NULL and isinstance(handle, SInt):
+        return SBool(ISNULL(_ie(handle)) == 1)
+    if other is None and isinstance(handle, SInt):
+        # an abstract sub-object may well be None (TYPE_NONE): never decided by the abstraction
+        return SBool(ISNONE(_ie(handle)) == 1)
+    return None
+
+
+def _dict_post(self, save_ref, bytes_for_s, result, _old_self):
+    p0, r0 = _old_self.pos, _old_self.nrefs
+    r1 = r0 + If(save_ref, 1, 0)
+    b = B01(bytes_for_s)
+    out = [("pairs", pair_seq_of_dict(result) == dpairs(p0, r1, b)),
+           ("position", self.fp.pos == dend(p0, r1, b, 0)),
+           ("ref-count", self.internObjects.length == dend(p0, r1, b, 1))]
+    if self.internObjects.tail:
+        out.append(("ref-slot-reserved-before-children", SInt(self.internObjects.tail[0][0]) == r0))
+        out.append(("ref-slot-holds-the-finished-object", self.internObjects.tail[0][1] is result))
+    return out
+
+
+contract(CLS + "t_dict", params={"self": Unmarshaller(), "save_ref": Bool()},
+         configs={"bytes_for_s=False": {"bytes_for_s": False, "_magic": 3413}, "bytes_for_s=True": {"bytes_for_s": True, "_magic": 3413}},
+         ensures=_dict_post, no_native_replay=True, handle_is=_null_identity, handle_dicts=True,
+         note="termination of the pair loop is not proved (while True: ends at the first NULL the stream holds; C11 bounds it)",
+         loops={0: Loop("while True",
+                        invariant=lambda self, _old_self, ret, bytes_for_s, save_ref: And(
+                            pair_seq_of_dict(ret) + dpairs(self.fp.pos, self.internObjects.length, B01(bytes_for_s)) == dpairs(_old_self.pos, _old_self.nrefs + If(save_ref, 1, 0), B01(bytes_for_s)),
+                            dend(self.fp.pos, self.internObjects.length, B01(bytes_for_s), 0) == dend(_old_self.pos, _old_self.nrefs + If(save_ref, 1, 0), B01(bytes_for_s), 0),
+                            dend(self.fp.pos, self.internObjects.length, B01(bytes_for_s), 1) == dend(_old_self.pos, _old_self.nrefs + If(save_ref, 1, 0), B01(bytes_for_s), 1)))})
 
 ALL_CONTRACTS = CONTRACTS + [R_OBJECT_ABSTRACT]
